@@ -299,3 +299,13 @@ package reader
 //@   dyncall results 2 ensures selectAsked && selectAnswer == result1
 //@   ensures [an-event-the-task-does-not-select-is-left-to-the-other-tasks] selectAsked && !selectAnswer ==> !result
 //@   loop 1 invariant selectAsked && selectAnswer
+
+// the body of StartRead (run once): subscribe, request the watches, list, start what is selected, release the watch
+//@ func (*CollectionReader).StartRead$1
+//@   props C13
+//@   requires deref(reader) != nil && deref(reader).metaOp != nil && deref(reader).channelManager != nil
+//@   assumes subsColl == 0 && subsPart == 0 && watchColl == 0 && watchPart == 0 && listedColl == 0 && listedPart == 0
+//@   private subsColl subsPart watchColl watchPart listedColl listedPart startedWatch
+//@   loop 1 invariant subsColl >= 1 && subsPart >= 1 && watchColl >= 1 && watchPart >= 1 && listedColl >= 1
+//@   loop 2 invariant subsColl >= 1 && subsPart >= 1 && watchColl >= 1 && watchPart >= 1 && listedColl >= 1
+//@   loop 3 invariant subsColl >= 1 && subsPart >= 1 && watchColl >= 1 && watchPart >= 1 && listedColl >= 1
